@@ -8,6 +8,10 @@ macro_rules! cfg {
 }
 
 fn main() {
+    vengine::on_worker_stack(real_main);
+}
+
+fn real_main() {
     let mut run = Run::from_args("C12", "c12");
     if !run.in_replay() {
         match fmtcheck::wide_selfcheck() {
